@@ -615,6 +615,13 @@ theorem i64_sub8 (v : Int) (hv : -2 ^ 62 < v ∧ v < 2 ^ 62) :
   simp only [Rs.Arith.sub, hi, e8]
   rw [if_pos (by omega)]
 
+theorem i64_sub7 (v : Int) (hv : -2 ^ 62 < v ∧ v < 2 ^ 62) :
+    Rs.Arith.sub (Int64.ofInt v) (7 : Int64) = some (Int64.ofInt (v - 7)) := by
+  have hi : (Int64.ofInt v).toInt = v := Int64.toInt_ofInt_of_le (by omega) (by omega)
+  have e7 : (7 : Int64).toInt = 7 := by decide
+  simp only [Rs.Arith.sub, hi, e7]
+  rw [if_pos (by omega)]
+
 theorem i64_pos (v : Int) (hv : -2 ^ 62 < v ∧ v < 2 ^ 62) :
     decide (Int64.ofInt v > (0 : Int64)) = decide (v > 0) := by
   have hi : (Int64.ofInt v).toInt = v := Int64.toInt_ofInt_of_le (by omega) (by omega)
@@ -687,7 +694,7 @@ syntax "pef_gen" "[" Lean.Parser.Tactic.simpLemma,* "]" : tactic
 macro_rules
   | `(tactic| pef_gen [$ls,*]) => `(tactic| simp (disch := omega) only [ofExcept_read_u16, ofExcept_read_u64,
       ofExcept_read_u8, ok_bind, error_bind, bind_assoc, pure_bind, List.drop_zero, List.drop_drop,
-      Nat.zero_add, Nat.reduceAdd, as_i64_u16, i64_sub8, i64_pos, Rs.P.lift, Rs.P.err, ↓reduceIte,
+      Nat.zero_add, Nat.reduceAdd, as_i64_u16, i64_sub8, i64_sub7, i64_pos, Rs.P.lift, Rs.P.err, ↓reduceIte,
       Bool.false_eq_true, $ls,*])
 
 section iter
@@ -1039,7 +1046,7 @@ theorem pef_iter_aes_v1 (hk1 : ¬ (kind == 1) = true) (hk2 : (kind == 0x9901) = 
   by_cases ha1 : (am == 1) = true
   · pef_model [hne, h1, h2, hg1, hk2, hg7, hr1, hr2, hr3, hr4, hgvid, hv1, ha1]
     pef_gen [h1, h2, hg1, hk2, hg7, hr1, hr2, hr3, hr4, hgvid, hx, hv1, ha1]
-    rw [pef_tail B hB n k W ih c hc hpos hn hk 11 (by omega) _ ?_ (len.toNat : Int)
+    rw [pef_tail B hB n k W ih c hc hpos hn hk 11 (by omega) _ ?_ ((len.toNat : Int) - 7)
       (by omega) _ hK]
     · simp only [hl7]
       rw [← hxm]; rfl
@@ -1048,7 +1055,7 @@ theorem pef_iter_aes_v1 (hk1 : ¬ (kind == 1) = true) (hk2 : (kind == 0x9901) = 
   by_cases ha2 : (am == 2) = true
   · pef_model [hne, h1, h2, hg1, hk2, hg7, hr1, hr2, hr3, hr4, hgvid, hv1, hga1, ha2]
     pef_gen [h1, h2, hg1, hk2, hg7, hr1, hr2, hr3, hr4, hgvid, hx, hv1, hga1, ha2]
-    rw [pef_tail B hB n k W ih c hc hpos hn hk 11 (by omega) _ ?_ (len.toNat : Int)
+    rw [pef_tail B hB n k W ih c hc hpos hn hk 11 (by omega) _ ?_ ((len.toNat : Int) - 7)
       (by omega) _ hK]
     · simp only [hl7]
       rw [← hxm]; rfl
@@ -1057,7 +1064,7 @@ theorem pef_iter_aes_v1 (hk1 : ¬ (kind == 1) = true) (hk2 : (kind == 0x9901) = 
   by_cases ha3 : (am == 3) = true
   · pef_model [hne, h1, h2, hg1, hk2, hg7, hr1, hr2, hr3, hr4, hgvid, hv1, hga1, hga2, ha3]
     pef_gen [h1, h2, hg1, hk2, hg7, hr1, hr2, hr3, hr4, hgvid, hx, hv1, hga1, hga2, ha3]
-    rw [pef_tail B hB n k W ih c hc hpos hn hk 11 (by omega) _ ?_ (len.toNat : Int)
+    rw [pef_tail B hB n k W ih c hc hpos hn hk 11 (by omega) _ ?_ ((len.toNat : Int) - 7)
       (by omega) _ hK]
     · simp only [hl7]
       rw [← hxm]; rfl
@@ -1099,7 +1106,7 @@ theorem pef_iter_aes_v2 (hk1 : ¬ (kind == 1) = true) (hk2 : (kind == 0x9901) = 
   by_cases ha1 : (am == 1) = true
   · pef_model [hne, h1, h2, hg1, hk2, hg7, hr1, hr2, hr3, hr4, hgvid, hgv1, hv2, ha1]
     pef_gen [h1, h2, hg1, hk2, hg7, hr1, hr2, hr3, hr4, hgvid, hx, hgv1, hv2, ha1]
-    rw [pef_tail B hB n k W ih c hc hpos hn hk 11 (by omega) _ ?_ (len.toNat : Int)
+    rw [pef_tail B hB n k W ih c hc hpos hn hk 11 (by omega) _ ?_ ((len.toNat : Int) - 7)
       (by omega) _ hK]
     · simp only [hl7]
       rw [← hxm]; rfl
@@ -1108,7 +1115,7 @@ theorem pef_iter_aes_v2 (hk1 : ¬ (kind == 1) = true) (hk2 : (kind == 0x9901) = 
   by_cases ha2 : (am == 2) = true
   · pef_model [hne, h1, h2, hg1, hk2, hg7, hr1, hr2, hr3, hr4, hgvid, hgv1, hv2, hga1, ha2]
     pef_gen [h1, h2, hg1, hk2, hg7, hr1, hr2, hr3, hr4, hgvid, hx, hgv1, hv2, hga1, ha2]
-    rw [pef_tail B hB n k W ih c hc hpos hn hk 11 (by omega) _ ?_ (len.toNat : Int)
+    rw [pef_tail B hB n k W ih c hc hpos hn hk 11 (by omega) _ ?_ ((len.toNat : Int) - 7)
       (by omega) _ hK]
     · simp only [hl7]
       rw [← hxm]; rfl
@@ -1117,7 +1124,7 @@ theorem pef_iter_aes_v2 (hk1 : ¬ (kind == 1) = true) (hk2 : (kind == 0x9901) = 
   by_cases ha3 : (am == 3) = true
   · pef_model [hne, h1, h2, hg1, hk2, hg7, hr1, hr2, hr3, hr4, hgvid, hgv1, hv2, hga1, hga2, ha3]
     pef_gen [h1, h2, hg1, hk2, hg7, hr1, hr2, hr3, hr4, hgvid, hx, hgv1, hv2, hga1, hga2, ha3]
-    rw [pef_tail B hB n k W ih c hc hpos hn hk 11 (by omega) _ ?_ (len.toNat : Int)
+    rw [pef_tail B hB n k W ih c hc hpos hn hk 11 (by omega) _ ?_ ((len.toNat : Int) - 7)
       (by omega) _ hK]
     · simp only [hl7]
       rw [← hxm]; rfl
